@@ -52,7 +52,11 @@ func genTarget(rng *rand.Rand) (target string, plain bool) {
 			own := [][]string{{"olla"}, {"olla", "proxy"}, {"olla", "openai"}, {"proxy"}, {"olla", "ollama", "api"}, {"internal", "health"}, {"route_prefix"}}[rng.Intn(7)]
 			segs = append(append([]string{}, own...), segs...)
 		}
-		return "/" + strings.Join(segs, "/"), true
+		tail := ""
+		if rng.Intn(4) == 0 {
+			tail = "/" // collection-style paths end in a slash; it is part of the path
+		}
+		return "/" + strings.Join(segs, "/") + tail, true
 	}
 	n := 1 + rng.Intn(6)
 	var sb strings.Builder
@@ -73,7 +77,7 @@ func genTarget(rng *rand.Rand) (target string, plain bool) {
 
 func genQuery(rng *rand.Rand, nonce string) string {
 	parts := []string{"nonce=" + nonce}
-	opts := []string{"a=1", "p=..%2F..%2Fetc", "u=http%3A%2F%2Fdecoy%2F", "e", "x=%2e%2e", "semi=a;b", "plus=a+b", "q=%3F%23", "k=//x//", "sp=%20"}
+	opts := []string{"a=1", "p=..%2F..%2Fetc", "u=http%3A%2F%2Fdecoy%2F", "e", "x=%2e%2e", "semi=a;b", "plus=a+b", "q=%3F%23", "k=//x//", "sp=%20", "h=a#frag", "t=1#"}
 	for i := 0; i < rng.Intn(4); i++ {
 		parts = append(parts, opts[rng.Intn(len(opts))])
 	}
@@ -342,7 +346,10 @@ func runEngine(run *rep.Run, rng *rand.Rand, eng string, defs []epDef) {
 				want = strings.TrimRight(d.base, "/") + dec
 			}
 			gd, _ := url.PathUnescape(got.Path)
-			if gd != want {
+			if gd != want && d.preserve && strings.HasSuffix(want, "/") && gd == strings.TrimSuffix(want, "/") {
+				// path.Join under preserve_path drops the trailing slash (pinned by the repository's tests)
+				run.Violation("C16/plain-target-construction/preserve_path/trailing-slash-dropped", fmt.Sprintf("target %q (after %s) on endpoint %s (base %q, preserve_path) was requested as %q: the trailing slash of the remaining path is gone", target, prefix, d.name, d.base, got.Path), wit)
+			} else if gd != want {
 				run.Violation("C16/plain-target-construction/"+d.name+pfxKey, fmt.Sprintf("target %q (after %s) on endpoint %s (base %q, preserve_path=%v) was requested as %q, expected %q", target, prefix, d.name, d.base, d.preserve, got.Path, want), wit)
 			}
 		}
